@@ -175,8 +175,31 @@ def tables(draw):
         specs.append((OTHER_NAMES[k], "other", "float64" if k != 1 else "int64", list(range(100, 116)), 16, 0))
     specs = draw(st.permutations(specs))
 
+    shape = draw(st.sampled_from(["random", "random", "dups", "plane"]))
+    if shape == "plane":
+        # many mutually non-dominated rows inside one fused-loop group: all objective/reservation columns get their
+        # full level range and the rows are put on an anti-diagonal plane (the block-structured part of the filter
+        # is only reached with > 16 survivors in >= 3 varying columns)
+        n = max(n, draw(st.sampled_from([60, 120, 200])))
+        specs = [(nm, kd, dt, lv, (min(16, len(lv)) if kd in ("objective", "reservation") else nl), (0 if kd in ("objective", "reservation") else off))
+                 for (nm, kd, dt, lv, nl, off) in specs]
     idx = draw(st.lists(st.lists(st.integers(0, 15), min_size=len(specs), max_size=len(specs)), min_size=n, max_size=n))
-    shape = draw(st.sampled_from(["random", "random", "dups"]))
+    if shape == "plane":
+        wide = [c for c, sp_ in enumerate(specs) if sp_[1] in ("objective", "reservation") and sp_[4] >= 5]
+        if len(wide) >= 3:
+            tot = draw(st.integers(len(wide) * 3, len(wide) * 9))
+            for r in idx:
+                rest = sum(r[c] % specs[c][4] for c in wide[:-1])
+                r[wide[-1]] = (tot - rest) % specs[wide[-1]][4]
+            # a minority of rows are copies of a plane row made worse in one or two columns: each is dominated
+            # by exactly the row it was copied from (and by little else)
+            worse = draw(st.lists(st.tuples(st.integers(0, n - 1), st.integers(0, n - 1), st.integers(0, len(wide) - 1),
+                                            st.integers(1, 2)), min_size=n // 8, max_size=n // 3))
+            for dst, src, k, inc in worse:
+                if dst != src:
+                    idx[dst] = list(idx[src])
+                    c = wide[k]
+                    idx[dst][c] = min(idx[src][c] % specs[c][4] + inc, specs[c][4] - 1)
     if shape == "dups" and n >= 2:
         for a_, b_ in draw(st.lists(st.tuples(st.integers(0, n - 1), st.integers(0, n - 1)), max_size=8)):
             idx[b_] = list(idx[a_])
